@@ -259,6 +259,13 @@ fn walk(file: &[u8], h: &SHeader, off: u64, len: u64, depth: u32, v: &mut View, 
             }
             let lo = h.leaf_off.checked_add(e.off).ok_or("leaf offset overflow")?;
             let before = v.tile_entries.len();
+            // the lookup procedure descends into the last entry whose id is <= the target: a pointer must therefore
+            // start after everything the directories before it cover, including the whole run of the last entry
+            if let Some(last) = v.tile_entries.last() {
+                if last.id.saturating_add(u64::from(last.run)) > e.id {
+                    return Err(format!("leaf pointer id {} lies inside the run [{}, +{}) that precedes it", e.id, last.id, last.run));
+                }
+            }
             walk(file, h, lo, u64::from(e.len), depth + 1, v, strict)?;
             // every id inside a leaf is >= the pointer's id
             if let Some(first) = v.tile_entries.get(before) {
